@@ -39,6 +39,9 @@ pub struct OracleState {
     pub ext_sender: Option<(SignatureSecretKey, SigningIdentity)>,
     pub ext_proposals: BTreeSet<u64>,
     pub codec_seq: u64,
+    pub c10_unused: BTreeMap<u64, Vec<String>>,
+    pub c10_applied: BTreeMap<u64, (usize, Vec<String>)>,
+    pub c10_cache_at_process: BTreeMap<(usize, u64), BTreeSet<u64>>,
 }
 
 #[derive(Default)]
@@ -841,6 +844,7 @@ pub fn do_special(w: &mut World, kind: &str, a: u64, b: u64, c: u64) -> VResult<
         "apply_detached" => do_apply_detached(w, a as usize, c as usize, b),
         "bad_join" => do_bad_join(w, a, b as usize, c as usize),
         "branch" => crate::c17::do_branch(w, a as usize, b, c),
+        "forge" => crate::c10::do_forge(w, a as usize, 0, b, c as usize),
         "sflip" => crate::codec::do_stored_flip(w, a as usize, c as usize, b),
         "observe" => crate::observer::do_observe(w, a as usize, b),
         "obs_feed" => crate::observer::do_obs_feed(w, a as usize, b),
@@ -1053,6 +1057,22 @@ pub fn commit_extras(w: &mut World, _p: usize, g: usize, spec: &CommitSpec) -> V
 
 pub fn proposal_extras(w: &mut World, _p: usize, g: usize, spec: &PropSpec) -> VResult<PropExtras> {
     let mut x = PropExtras::default();
+    if let PropSpec::Template { t, q } = spec {
+        match t {
+            8 => {
+                // add somebody whose credential the application's identity provider rejects
+                if let Some(kp) = w.gen_key_package(*q)? {
+                    x.raw = Some(Arc::new(move |grp: &mut SimGroup| grp.propose_add(MlsMessage::from_bytes(&kp)?, vec![])));
+                }
+            }
+            _ => {
+                // a PSK nobody holds
+                x.raw = Some(Arc::new(|grp: &mut SimGroup| {
+                    grp.propose_external_psk(mls_rs::psk::ExternalPskId::new(vec![b'k', 99]), vec![])
+                }));
+            }
+        }
+    }
     x.reinit_gid = format!("reinit-of-{g}-{:08x}", w.seed as u32).into_bytes();
     if let PropSpec::ResPsk { back } = spec {
         x.res_epoch = (w.groups[g].log.len() as u64).saturating_sub(*back as u64);
@@ -1097,6 +1117,50 @@ pub fn after_commit_built(
     pre: Pre,
     _out: &CommitOutput,
 ) -> VResult<()> {
+    crate::c10::on_commit_built(w, p, g, id, &_out.unused_proposals);
+    // RFC 9420 §12.4: the path is required when the commit carries a Remove, Update, GroupContextExtensions (or
+    // ExternalInit) proposal or no proposal at all - a removed member must not be able to derive the next epoch
+    if w.cfg.oracle("path-required") {
+        let msg = w.msgs[&id].clone();
+        if let Some(spec) = &msg.spec {
+            let removes_by_value = spec.removes.iter().any(|q| {
+                *q != p && w.groups[g].members.get(&msg.epoch).map(|m| m.contains_key(q)).unwrap_or(false)
+            });
+            let byref_needs_path = msg.refs.iter().any(|r| {
+                matches!(
+                    w.msgs[r].pspec,
+                    Some(PropSpec::Update { .. }) | Some(PropSpec::Remove { .. }) | Some(PropSpec::SelfRemove) | Some(PropSpec::Gce { .. })
+                )
+            });
+            let empty = spec.adds.is_empty()
+                && spec.removes.is_empty()
+                && spec.ext_psks.is_empty()
+                && spec.res_psks.is_empty()
+                && spec.gce.is_none()
+                && spec.custom.is_none()
+                && spec.reinit.is_none()
+                && spec.templates.is_empty()
+                && msg.refs.is_empty();
+            let must = removes_by_value || spec.gce.is_some() || empty;
+            w.stats.check("path-present-when-required");
+            let has = w.ext.commit_has_path.get(&id).copied().unwrap_or(true);
+            if must && !has {
+                return Err(Violation::new(
+                    &w.cfg.property,
+                    "path-required",
+                    format!(
+                        "commit-without-required-path:{}",
+                        if removes_by_value { "remove" } else if spec.gce.is_some() { "gce" } else { "empty" }
+                    ),
+                    format!("P{p} built commit {id} without an update path although it {} (by-reference proposals that need a path: {byref_needs_path})",
+                        if removes_by_value { "removes a member" } else if spec.gce.is_some() { "changes the group context extensions" } else { "carries no proposal" }),
+                ));
+            }
+            if removes_by_value && spec.custom.is_some() {
+                w.stats.probe("commit-with-remove-and-custom-proposal");
+            }
+        }
+    }
     if w.cfg.oracle("record-crypto") {
         let events = crate::crypto::rec_take_events();
         unique_seals(w, &events, "commit")?;
@@ -1578,6 +1642,7 @@ pub fn after_commit_processed(
     _pre: Pre,
     _desc: &CommitMessageDescription,
 ) -> VResult<()> {
+    crate::c10::on_commit_processed(w, p, g, cid, _desc)?;
     // (a member that the commit removes does not enter the new epoch: its object simply stays behind)
     let entered = !matches!(_desc.effect, mls_rs::group::CommitEffect::Removed { .. });
     if w.cfg.oracle("pending-model") && entered {
